@@ -66,7 +66,11 @@ class PersistentProcessWorker(PersistentWorker, ProcessWorker):
     def enqueue(self, *args, **kwargs):
         if not self.is_alive() or self._closed:
             raise WorkerClosedError(self)
-        self._args_pipe.parent_end.send((args, kwargs))
+        try:
+            self._args_pipe.parent_end.send((args, kwargs))
+        except BrokenPipeError as e:
+            # the child has died since the check above
+            raise WorkerClosedError(self) from e
 
     #
     # Running mechanism
